@@ -130,6 +130,7 @@ type dAck struct {
 	ip       netip.Addr
 	expiry   int64
 	captured bool // capture state of the client when the address was acknowledged
+	moved    bool // the client's capture state differed from that at some point since (it was moved to the other subnet)
 }
 
 type dObserver struct {
@@ -547,6 +548,14 @@ func runDHCP(alpha []dEvent, hist []int, o dhcpOpts) *dhcpResult {
 			if failed {
 				break
 			}
+			// a client whose capture state differs from the one it was acknowledged in has been moved to the other subnet
+			// (it stays "moved" even if it is moved back: the server may have dropped the binding in between)
+			for k, a := range obs.acks {
+				if !a.moved && s.IsCaptured(dClients[k]) != a.captured {
+					a.moved = true
+					obs.acks[k] = a
+				}
+			}
 			// ---- observe the replies of this step
 			step := dhcpStep{}
 			now := vsched.NowNanos()
@@ -619,11 +628,11 @@ func runDHCP(alpha []dEvent, hist []int, o dhcpOpts) *dhcpResult {
 								stillInTable = true
 							}
 						}
-						if s.IsCaptured(dClients[y]) != ya.captured && !stillInTable {
+						if (ya.moved || s.IsCaptured(dClients[y]) != ya.captured) && !stillInTable {
 							// the owner was moved to the other subnet (captured / released, or its capture flag was lost with
 							// its purged session entry) after the acknowledgement and the server has dropped its binding
 							sig += ":owner-changed-subnet"
-							note = fmt.Sprintf(" (c%d was captured=%v when it was acknowledged and is captured=%v now)", y+1, ya.captured, !ya.captured)
+							note = fmt.Sprintf(" (c%d was captured=%v when it was acknowledged, was moved to the other subnet since and is captured=%v now)", y+1, ya.captured, s.IsCaptured(dClients[y]))
 						}
 						fail("unique", sig, fmt.Sprintf("%s of %v to c%d while it is still acknowledged to c%d%s", kind, a, k+1, y+1, note))
 					}
